@@ -61,6 +61,15 @@ def discharge(assumptions, goal, timeout_ms=None, use_cvc5=True, want_model=True
     STATS["z3"] += 1
     STATS["z3_time"] += dt
     if r == z3.unsat:
+        if os.environ.get("VERIF_TIER") == "thorough" and os.environ.get("VERIF_NO_CVC5_RECHECK") != "1":
+            # thorough tier: every VC discharged by z3 is re-checked by cvc5; a disagreement is reported as undecided, never hidden
+            t1 = time.time()
+            r2 = cvc5_check(_smt2(assumptions, goal), timeout_s=20)
+            STATS["cvc5"] += 1
+            STATS["cvc5_time"] += time.time() - t1
+            if r2 == "sat":
+                return {"status": "unknown", "backend": "z3+cvc5", "time_s": time.time() - t0, "model": None, "reason": "solver disagreement: z3 unsat, cvc5 sat"}
+            return {"status": "discharged", "backend": "z3+cvc5(agree)" if r2 == "unsat" else "z3(cvc5: unknown)", "time_s": time.time() - t0, "model": None}
         return {"status": "discharged", "backend": "z3", "time_s": dt, "model": None}
     if r == z3.sat:
         m = s.model() if want_model else None
